@@ -196,7 +196,7 @@ B_FIELDS = {
     "linegap": ([100, 37], None),
     "width": ([1000, 0, 2048, 1300], None),
     "color_format": (gen.ALL_FORMATS, None),
-    "output_file": (["Other.ttf", "My Font.ttf", "sub.name.ttf"], None),
+    "output_file": (["Other.ttf", "My Font.ttf", "sub.name.ttf", "Flavour.otf", "Flavour.ttf"], None),
     "keep_glyph_names": ([True, False], ["glyf", "glyf_colr_0", "glyf_colr_1", "untouchedsvg", "cbdt", "sbix", "picosvg"]),
     "clipbox_quantization": ([1, 16, 50, 100], ["glyf_colr_1", "cff2_colr_1", "cff_colr_1"]),
     "bitmap_resolution": ([16, 24, 48, 20], ["cbdt", "sbix"]),
@@ -283,7 +283,7 @@ def gen_single(seed, idx):
         var["output_file"] = "Font" + gen.ext_for(value)
         if value in gen.BITMAP:
             var.setdefault("bitmap_resolution", 32)
-    if field == "output_file" and base_fmt.startswith("cff"):
+    if field == "output_file" and base_fmt.startswith("cff") and not value.startswith("Flavour"):
         var["output_file"] = value.replace(".ttf", ".otf")
     other = [v for v in values if v != value] or [_default(field)]
     file_value_when_both = other[0]  # the file says something else; the flag must win
@@ -325,8 +325,9 @@ def gen_single(seed, idx):
         if not (warm and k == 0):
             ops.append({"op": "rename", "src": "build", "dst": "build.aside%d" % k, "keep": True})
         ov = file_value_when_both
-        if field == "output_file" and base_fmt.startswith("cff"):
-            ov = ov.replace(".ttf", ".otf")
+        if field == "output_file":
+            # the value that must lose keeps the winner's suffix: the suffix decides the outline flavour
+            ov = os.path.splitext(ov)[0] + os.path.splitext(var["output_file"])[1]
         build("v%d" % k, var, mode, override=ov)
     cid = "c20B-%d-%d" % (seed, idx)
     job = {"id": cid + ".j0", "root_id": "c20/%d/B%d" % (seed, idx), "hashseed": H(seed, "c20B", idx, "hs") % 4294967296,
@@ -335,14 +336,15 @@ def gen_single(seed, idx):
                                                "modes": modes, "warm": warm, "fmt": var["color_format"]}}
 
 
-def _expect_tables(fmt):
+def _expect_tables(fmt, output_file):
     must, mustnot = set(), set()
-    if fmt.startswith("glyf"):
+    # the outline flavour follows the output file's suffix: .otf -> CFF (CFF2 for cff2_*), .ttf -> glyf
+    if output_file.endswith(".otf"):
+        must.add("CFF2" if fmt.startswith("cff2_") else "CFF ")
+        mustnot.add("glyf")
+    else:
         must.add("glyf")
-    if fmt.startswith("cff2_"):
-        must.add("CFF2")
-    elif fmt.startswith("cff_"):
-        must.add("CFF ")
+        mustnot |= {"CFF ", "CFF2"}
     if "colr" in fmt:
         must |= {"COLR", "CPAL"}
     else:
@@ -409,23 +411,23 @@ def _check_observables(opts, info, field=None):
             continue
         if info["hmtx"].get(g) != exp:
             bad.append(("width->advance rule", [g, info["hmtx"].get(g), exp]))
-        if info["post"] == 2 and not fmt.startswith("cff"):
+        if info["post"] == 2 and not opts["output_file"].endswith(".otf"):
             want = ("zz_" if custom else "") + gname
             if g != want:
                 bad.append(("glyph naming", [g, want]))
-    must, mustnot = _expect_tables(fmt)
+    must, mustnot = _expect_tables(fmt, opts["output_file"])
     have = set(info["tables"])
     if not must <= have or (mustnot & have):
-        bad.append(("color_format->tables", [sorted(must - have), sorted(mustnot & have)]))
-    if fmt.startswith("cff") != (info["sfntVersion"] == "OTTO"):
-        bad.append(("color_format->outline flavour", [info["sfntVersion"]]))
+        bad.append(("color_format/output_file->tables", [sorted(must - have), sorted(mustnot & have)]))
+    if opts["output_file"].endswith(".otf") != (info["sfntVersion"] == "OTTO"):
+        bad.append(("output_file->outline flavour", [info["sfntVersion"]]))
     if "colr" in fmt and info.get("colr_version") != int(fmt[-1]):
         bad.append(("color_format->COLR version", [info.get("colr_version")]))
     if fmt in ("picosvgz", "untouchedsvgz") and not all(info.get("svg_compressed", [False])):
         bad.append(("color_format->compressed SVG", [info.get("svg_compressed")]))
     if fmt in ("picosvg", "untouchedsvg") and any(info.get("svg_compressed", [])):
         bad.append(("color_format->uncompressed SVG", [info.get("svg_compressed")]))
-    if not fmt.startswith("cff"):
+    if not opts["output_file"].endswith(".otf"):
         exp_post = 2 if val("keep_glyph_names") else 3
         if info["post"] != exp_post:
             bad.append(("keep_glyph_names->post", [info["post"], exp_post]))
